@@ -49,7 +49,7 @@ CLAIMS = {
         "fermion, gluino, neutralino and chargino mass matrices equals an independently written Lagrangian expression (one generic spec per sector with the generation "
         "index, hence generation-exchange symmetry); after the tree-level EWSB elimination both EWSB equations vanish and the Higgs-sector trace/determinant sum rules "
         "(m_h^2+m_H^2 = m_A^2+m_Z^2, m_H+^2 = m_A^2+m_W^2, Goldstones at MZ^2, MW^2) hold; each monitored sector flags a tachyon on exactly the paths with a negative "
-        "eigenvalue and stores sqrt|w|; calculate_DRbar_masses restores mHd2, mHu2 (RAII frame) and writes no other parameter; the Goldstone reordering permutes masses and ROWS of ZA/ZP.",
+        "eigenvalue and stores sqrt|w|; calculate_DRbar_masses restores mHd2, mHu2 (RAII frame) and writes no other parameter; the Goldstone reordering permutes masses and ROWS of ZA/ZP.  Goldstone reordering also for a spectrum accurate only to the eigen-solver's error bound (C04.goldstone_reordering.rounded_spectrum).",
    note=NOTE_COMMON + "A-LINALG (C12) assumed for fs_diagonalize_hermitian/fs_svd/fs_diagonalize_symmetric: reconstruction Z^dagger diag(m^2) Z, unitarity and ordering of the reported factors "
         "are exactly that assumption applied to the proved matrices; IEEE rounding not covered.",
    technique="symbolic execution of the extracted generated code + z3 NRA against an independent Lagrangian spec; exception/flag effects as ghost state", design='5 C04'),
@@ -90,7 +90,7 @@ CLAIMS = {
         "masses MZ, MW, physical masses mA, mH+), MW/MZ reproduced from the SM input, calculate_Mhh returns (mh,mH) without tachyon flag and the heavy "
         "eigenvector is +-(cos alpha, sin alpha) under the eigen-solver's documented contract, the Goldstone reordering puts MZ/MW at index 0, the mixing-angle "
         "getters return the input sin/cos(beta-alpha) for EITHER eigenvector sign, and for all six Yukawa types the fermion mass matrices equal the SM ones "
-        "with no division by zero.  Two obligations failed on the pinned tree with replayed counterexamples (mixing angle, aligned zeta=cot beta) and were repaired by fix: commits.  Lemmas re-registered: both THDM constructors hand the basis fields to the members of the same name (C09.constructor.*), and no function keeps state between constructions (static frame of C19), so the single-construction contracts hold for every construction in a process.",
+        "with no division by zero.  Two obligations failed on the pinned tree with replayed counterexamples (mixing angle, aligned zeta=cot beta) and were repaired by fix: commits.  Lemmas re-registered: both THDM constructors hand the basis fields to the members of the same name (C09.constructor.*), and no function keeps state between constructions (static frame of C19), so the single-construction contracts hold for every construction in a process.  The Goldstone reordering is also proved for a spectrum that is only as accurate as the eigen-solver's documented error bound (|g - MZ| <= 1e-9 MZ): the Goldstone state goes to index 0 whichever state is lighter (C08.goldstone_reordering.rounded_spectrum).",
    note=NOTE_COMMON + "A-LINALG (C12) is assumed for fs_diagonalize_hermitian and the SVD (singular values of a matrix with M^dagger M = diag(m^2) are |m|); "
         "cos(beta-alpha) >= 1e-6 is required for the mixing-angle clause (at cos(beta-alpha)=0 the sign of sin(beta-alpha) is a field redefinition); "
         "the gauge-basis round trip is functional determinism of the same mass-matrix code; IEEE rounding is not covered.",
@@ -154,7 +154,7 @@ CLAIMS = {
  'C14': dict(
    text="The contract-decidable part of C14: every float->int conversion executed by the readers is defined (in range) for ALL doubles; option readers accept exactly their documented values; "
         "block readers never index a line beyond its fields and write matrices/vectors in bounds only; numeric token conversion throws only EReadError; no exception class raised inside "
-        "main()'s try block escapes its handlers; every failure exit emits a diagnostic; fill_block_entry, through which the SPINFO diagnostics are written, sets exactly the named block's entry for every position of that block in the file (frame over the whole SLHA view, native replay).  The read_integer conversion obligation failed on the pinned tree (UBSan-confirmed) and was fixed.  An exception that reaches the boundary of a noexcept function is the effect std::terminate, which no handler stops: main() must not reach one.",
+        "main()'s try block escapes its handlers; every failure exit emits a diagnostic; fill_block_entry, through which the SPINFO diagnostics are written, sets exactly the named block's entry for every position of that block in the file (frame over the whole SLHA view, native replay).  The read_integer conversion obligation failed on the pinned tree (UBSan-confirmed) and was fixed.  An exception that reaches the boundary of a noexcept function is the effect std::terminate, which no handler stops: main() must not reach one.  MSSMNoFV_setup::run executed with the REAL writer of every output format: whenever it returns EXIT_FAILURE a diagnostic was emitted (std::cerr output of run, or SPINFO[3]/[4] filled by the SLHA writer) for every combination of problem/warning (program replay: stau tachyon with forced output).",
    note=NOTE_COMMON + "NOT decided and not claimed: termination within bounded time, leaks, uninitialised memory, behaviour of the SLHAea tokenizer and iostreams on arbitrary bytes, signals -- "
         "they need execution, which is outside this technique family.",
    technique="side obligations of symbolic execution (conversion/index ranges) + exception-effect inference on main", design='5 C14'),
